@@ -450,6 +450,10 @@ var layoutHazards = []string{
 	// many uses of groupings that cannot be found (every one is followed by every lookup)
 	`module m { %H uses g0; uses g1; uses g2; uses g3; uses g4; uses g5; uses g6; uses g7; uses g8; uses g9; uses g10; uses g11; uses g12; uses g13; grouping real { leaf in { type string; } } uses real; }`,
 	`module m { %H import n { prefix n; } uses n:g0; uses n:g1; uses n:g2; uses n:g3; uses n:g4; uses n:g5; uses n:g6; uses n:g7; uses n:g8; uses n:g9; uses n:g10; uses n:g11; } module n { namespace "urn:n"; prefix n; grouping g0 { uses g1; uses g2; uses g3; uses nope; } grouping g1 { uses g0; uses g2; uses g3; } grouping g2 { uses g3; } }`,
+	// refine statements (goyang reads them and applies none): targets by descendant path, by
+	// absolute path with and without prefixes, with every refinable property
+	`module m { %H grouping g { container top { leaf l { type string; } leaf-list ll { type string; } } leaf x { type string; } } container c { uses g { refine "top/l" { default b; mandatory %A; config %A; } refine "/m:top/m:l" { default c; } refine /top/ll { min-elements %N; max-elements %N; default d; } refine "%P" { default e; description d; } refine x { default f; } } } }`,
+	`module m { %H import n { prefix n; } container c { uses n:g { refine "/n:top/n:l" { default b; } refine "n:top" { presence p; config %A; } refine ../x { default z; } } } } module n { namespace "urn:n"; prefix n; grouping g { container top { leaf l { type string; } } } }`,
 	// deviations of properties the target has only by inheritance (a default or units that come
 	// from its typedef), of leaf-lists with several defaults, of rpc input/output and of choices
 	`module m { %H typedef td { type %T; default %A; units u; } leaf l { type td; } leaf-list ll { type td; default a; default b; } deviation /m:l { deviate %D { default %A; units %A; } } deviation /m:ll { deviate %D { default a; } } }`,
@@ -588,7 +592,16 @@ func Lexical(j *job.Job, s *job.Sink) {
 			size = limit
 		}
 		var t string
-		switch i % 12 {
+		switch i % 13 {
+		case 12:
+			// a given number of invalid escapes (1-40) in one string, or spread over several:
+			// every count is a boundary for somebody's buffer
+			k := 1 + int(i/13)%40
+			if r.Intn(3) == 0 {
+				t = "module m { namespace \"u\"; prefix m; description \"" + strings.Repeat("\\q", k) + "\"; leaf l { type string; } }"
+			} else {
+				t = "a \"" + strings.Repeat("\\q", k/2) + "\" { b \"" + strings.Repeat("x\\w", k-k/2) + "\"; } c;"
+			}
 		case 0:
 			t = strings.Repeat("a{", size/2)
 		case 1:
@@ -618,13 +631,13 @@ func Lexical(j *job.Job, s *job.Sink) {
 		}
 		cd := caseDesc{Family: "lexical", Names: []string{"l.yang"}, Texts: []string{t}}
 		// log only a prefix of giant texts: the case is regenerated from (seed, index)
-		s.Current(i, map[string]any{"family": "lexical", "shape": i % 12, "size": len(t), "head": t[:min(len(t), 200)]})
+		s.Current(i, map[string]any{"family": "lexical", "shape": i % 13, "size": len(t), "head": t[:min(len(t), 200)]})
 		s.Count("cases", 1)
 		func() {
 			defer func() {
 				if rec := recover(); rec != nil {
 					st := string(debug.Stack())
-					s.Violation(i, j.CaseID(i), "C01.recovered", "panic@"+frameOf(st), fmt.Sprintf("%v in %s", rec, frameOf(st)), map[string]any{"shape": i % 12, "size": len(t)}, map[string]any{"kind": fmt.Sprint(rec), "frame": frameOf(st)})
+					s.Violation(i, j.CaseID(i), "C01.recovered", "panic@"+frameOf(st), fmt.Sprintf("%v in %s", rec, frameOf(st)), map[string]any{"shape": i % 13, "size": len(t)}, map[string]any{"kind": fmt.Sprint(rec), "frame": frameOf(st)})
 				}
 			}()
 			outcome, _ := Execute(cd.Texts, cd.Names, false)
